@@ -1,4 +1,5 @@
 import PyYetiVerif.Lemmas.Op2ReadForms
+import PyYetiVerif.Lemmas.Op2ReadTabShort
 /-!
 # C11 (continued) — OUTPUT2 `rdop2record(form, N)`: every form decodes the same bytes
 
@@ -87,6 +88,22 @@ theorem rdRecord_N_irrelevant (v : V2) (cut : Int) (f : Form) (hf : f ≠ .bytes
     | exact absurd rfl hf
     | simp only [hk, if_false, hN0, this, Int.lt_irrefl, skipKey_K2r]
 
+/-- **`rdop2tabheaders` with pieces shorter than three keys: what the code does.**  For every table whose pieces
+are non-empty (any lengths, 1 and 2 included), the header scan succeeds, ends exactly behind the table (the
+`seek((key - 3) * ibytes, 1)` goes backwards by the bytes read too many) and reports one entry per piece
+(`headersGen`); each entry carries the piece's byte length and three integers: the piece's own keys as far as
+there are any (`op2_tabheader_prefix`), then the key-sized words that follow in the file — the closing record
+marker and the next key record (so a 2-key piece in a 32-bit file reports its byte length 8 as third "key") -/
+theorem op2_tabheaders_any_pieces (v : V2) (rest : List Nat) (recs : List (List (List Int))) (hok : TabOk v 0 recs) :
+    rdTabHeaders v (encTabRecs v 0 recs ++ (K v 0 ++ rest)) = .ok (headersGen v rest 0 recs, rest) :=
+  rdTabHeaders_gen v rest recs hok
+
+theorem op2_tabheader_prefix (v : V2) (p : List Int) (after : List Nat) (hk : ∀ x ∈ p, InKey v x)
+    (hav : 3 * kb v ≤ (keys v p ++ after).length) :
+    (headGen v p after).1.length = 3 ∧ (headGen v p after).2 = ((p.length * kb v : Nat) : Int) ∧
+      (headGen v p after).1.take (min 3 p.length) = p.take 3 :=
+  headGen_prefix v p after hk hav
+
 /-! ### non-vacuity: a record of three pieces (3, 2 and 1 keys: the last two shorter than a table header) in a
 little-endian 32-bit file read with every form; with `double` only the even pieces would be admissible -/
 
@@ -115,5 +132,11 @@ one-item piece is dropped silently (numpy broadcasts one value into the empty sl
 example : errOf (rdRecordF exV32 3000 .int 4 exRec) = some .value ∧
     okOf (rdRecordF exV32 3000 .int 5 exRec) = some (some [1, 4294967294, 3, 4, 5], [7, 7]) ∧
     errOf (rdRecordF exV32 3000 .int 7 exRec) = some .exotic := by decide +kernel
+
+/-- the header scan of a table whose single record is `exPieces` (3, 2 and 1 keys): the 2-key piece reports its
+closing marker (8) as third key, the 1-key piece its closing marker and the opening marker of the next key record -/
+example : okOf (rdTabHeaders exV32 (encTabRecs exV32 0 [exPieces] ++ (K exV32 0 ++ [7, 7])))
+    = some ([([1, -2, 3], 12), ([4, 5, 8], 8), ([-6, 4, 4], 4)], [7, 7]) ∧ TabOk exV32 0 [exPieces] := by
+  decide +kernel
 
 end PyYetiVerif.C11
